@@ -12,7 +12,7 @@ from typing import Any, Dict, List, Optional
 
 from ..kit import caller_ok, Case, Ctx, calls, kw, loops, normal_paths, poly_of, rule, short, stores, table_check_cases
 from ..paths import Event, Path
-from ..terms import NONE, Term, diff_const, key, strip_ver, subterms
+from ..terms import NONE, Term, Unrecognised, World, diff_const, key, strip_ver, subterms
 
 GN = "Fundamentals._generate_next"
 GL = "Fundamentals._generate_log_return"
@@ -326,7 +326,37 @@ def r6(ctx: Ctx) -> None:
 
             ok = length[0] == "attr" and length[1] == ("sym", "self")
             pend = [c for c, pol, _ in p.conds]
+            if not ok:
+                if _bisect_on_unsorted(ctx, f, length):
+                    continue
+                ctx.unrec(f, gen[0].node, "length of the chunk", "neither `min(later starts) - _generated_until` nor the configured chunk size", short(length)[:160])
+                continue
             ctx.check(ok and bool(pend), f, gen[0].node, "without a later market start the configured chunk size is generated", "length = self._generate_chunk_size when no start lies ahead", short(length)[:120])
+
+
+def _bisect_on_unsorted(ctx: Ctx, f: Any, t: Term) -> bool:
+    """bisect_* over `self.<list>` is only meaningful on a sorted list: every writer of that list in
+    the class must keep it sorted (insort, sort() afterwards, assignment of sorted(...) or of an
+    empty list).  A plain append / insert / extend is reported."""
+    import ast as _ast
+
+    hit = False
+    for s_ in subterms(t):
+        if not (s_[0] == "call" and key(s_[1]).split(".")[-1] in ("bisect", "bisect_left", "bisect_right") and s_[2]):
+            continue
+        lst = strip_ver(s_[2][0])
+        if not (lst[0] == "attr" and lst[1] == ("sym", "self")):
+            continue
+        attr = lst[2]
+        for g in ctx.program.functions.values():
+            if g.cls is None or f.cls is None or g.cls.name != f.cls.name:
+                continue
+            sorts_after = any(isinstance(x, _ast.Call) and isinstance(x.func, _ast.Attribute) and x.func.attr == "sort" and isinstance(x.func.value, _ast.Attribute) and x.func.value.attr == attr for x in _ast.walk(g.node))
+            for x in _ast.walk(g.node):
+                if isinstance(x, _ast.Call) and isinstance(x.func, _ast.Attribute) and x.func.attr in ("append", "insert", "extend") and isinstance(x.func.value, _ast.Attribute) and x.func.value.attr == attr and isinstance(x.func.value.value, _ast.Name) and x.func.value.value.id == "self" and not sorts_after:
+                    hit = True
+                    ctx.violated(g, x, "the next market start is looked up in the ordered list of starts", f"every writer keeps self.{attr} sorted (insort / sort)", f"{g.qualname} uses .{x.func.attr}() on the list that {f.qualname} searches with bisect: starts registered out of order are skipped")
+    return hit
 
 
 @rule("C12.R5", "return transform: covariance = vol x corr x vol with a symmetric correlation matrix, lower Cholesky factor applied from the left to standard normals, drift added per market, zero-volatility markets get pure drift, rows restacked in the requested order", "T7 factor structure (necessary condition)", floor=6)
@@ -496,3 +526,108 @@ def r8(ctx: Ctx) -> None:
             ctx.violated(g, w.node, "entries are dropped from the correlation table only for the market being removed", "filter on the removed id only", f"{g.qualname} filters the table by the object's current state: correlations configured for markets that are not registered (yet) are lost")
         else:
             ctx.unrec(g, w.node, "writer of the correlation table", "an unexpected writer whose effect on the configured correlations is not modelled", g.qualname)
+
+
+class _PairWorld(World):
+    """finite model for code that handles (id, id) keys: subscripts of tuples, set()/frozenset()/sorted()/tuple()/len() of them"""
+
+    def eval(self, t: Term) -> Any:  # noqa: A003
+        if t[0] == "bound" and ("bound:" + t[1]) in self.values:
+            return self.values["bound:" + t[1]]
+        if t[0] == "sub":
+            a, i = self.eval(t[1]), self.eval(t[2])
+            if isinstance(a, (tuple, list, dict)):
+                return a[i]
+            raise Unrecognised(f"subscript of a non-sequence model value in {key(t)}")
+        if t[0] == "call" and t[1][0] == "name" and t[1][1] in ("set", "frozenset", "sorted", "tuple", "list", "len", "min", "max") and len(t[2]) == 1 and not t[3]:
+            a = self.eval(t[2][0])
+            return {"set": set, "frozenset": frozenset, "sorted": sorted, "tuple": tuple, "list": list, "len": len, "min": min, "max": max}[t[1][1]](a)
+        if t[0] == "set":
+            return {self.eval(x) for x in t[1]}
+        if t[0] == "cmp" and t[1] in ("in", "not in"):
+            a, b = self.eval(t[2]), self.eval(t[3])
+            return (a in b) if t[1] == "in" else (a not in b)
+        return super().eval(t)
+
+
+def _run_table_path(p: Path, w: Dict[str, Any]) -> Optional[Dict[Any, Any]]:
+    """the correlation table after the path ran in world w; None if the path is not taken there"""
+    table = dict(w["self.correlation"])
+    world = _PairWorld(dict(w, **{"self.correlation": table}))
+    for c, pol, _ in p.conds:
+        if bool(world.eval(strip_ver(c))) != pol:
+            return None
+    for e in p.walk_events(True):
+        if e.kind == "loop":
+            raise Unrecognised("a loop in a correlation-table method is not modelled")
+        if e.kind == "store" and e.attr is None and key(strip_ver(e.base)) == "self.correlation":
+            table[world.eval(strip_ver(e.index))] = world.eval(strip_ver(e.value))
+        elif e.kind == "del" and e.attr is None and key(strip_ver(e.base)) == "self.correlation":
+            del table[world.eval(strip_ver(e.index))]
+        elif e.kind == "call" and e.data.get("mutates") is not None and key(strip_ver(e.data["mutates"])) == "self.correlation":
+            args = [world.eval(strip_ver(a)) for a in e.term[2]]
+            if e.name == "pop" and len(args) >= 1:
+                if args[0] in table:
+                    del table[args[0]]
+                elif len(args) < 2:
+                    raise KeyError(args[0])
+            elif e.name == "update" and len(args) == 1 and isinstance(args[0], dict):
+                table.update(args[0])
+            elif e.name == "clear":
+                table.clear()
+            else:
+                raise Unrecognised(f"table changed through .{e.name}()")
+        elif e.kind == "store" and e.attr == "correlation" and key(strip_ver(e.base)) == "self":
+            from ..terms import normalise
+
+            v = normalise(strip_ver(e.value))
+            if not (v[0] == "comp" and v[1] == "dictcomp" and len(v[3]) == 1 and key(v[3][0][1]) == "self.correlation.items()" and len(v[3][0][0]) == 2):
+                raise Unrecognised("table rebuilt in a form that is not modelled: " + short(v)[:120])
+            kn, vn = v[3][0][0]
+            new: Dict[Any, Any] = {}
+            for k_, v_ in list(table.items()):
+                wi = _PairWorld(dict(world.values, **{"bound:" + kn: k_, "bound:" + vn: v_}))
+                if all(bool(wi.eval(c)) for c in v[3][0][2]):
+                    kv = wi.eval(v[2])
+                    new[kv[0]] = kv[1]
+            table.clear()
+            table.update(new)
+        world.values["self.correlation"] = table
+    return table
+
+
+@rule("C12.R9", "set_correlation and remove_correlation change exactly the entry of the named pair, whichever way round it is stored; every other configured correlation stays", "T6 finite model (ids 1..4, both orientations)", floor=5)
+def r9(ctx: Ctx) -> None:
+    others = {(1, 3): 0.1, (3, 2): 0.2, (3, 4): 0.3, (4, 2): 0.4}
+    for q, removing in (("Fundamentals.set_correlation", False), ("Fundamentals.remove_correlation", True)):
+        f = ctx.func(q)
+        ps = normal_paths(ctx.paths(q))
+        for stored in ((1, 2), (2, 1), None):
+            if removing and stored is None:
+                continue
+            table = dict(others)
+            if stored is not None:
+                table[stored] = 0.7
+            w = {"market_id1": 1, "market_id2": 2, "corr": 0.5, "time": 0, "self.correlation": table}
+            what = f"{q.split('.')[-1]}(1, 2) on a table holding {stored if stored else 'no entry for the pair'} and four other pairs"
+            try:
+                res = [r for r in (_run_table_path(p, w) for p in ps) if r is not None]
+            except Unrecognised as ex:
+                ctx.unrec(f, f.node, what, str(ex)[:200])
+                continue
+            except KeyError as ex:
+                ctx.violated(f, f.node, what, "the stored entry is found in either orientation", f"KeyError {ex}")
+                continue
+            if len(res) != 1:
+                ctx.unrec(f, f.node, what, f"{len(res)} normal paths are taken in this world")
+                continue
+            got = res[0]
+            pair = {k: v for k, v in got.items() if set(k) == {1, 2}}
+            rest = {k: v for k, v in got.items() if set(k) != {1, 2}}
+            if removing:
+                ok = not pair and rest == others
+                exp = "pair gone, the four other pairs untouched"
+            else:
+                ok = len(pair) == 1 and list(pair.values()) == [0.5] and rest == others and (stored is None or stored in pair)
+                exp = "one entry for the pair holding the new coefficient, the four other pairs untouched"
+            ctx.check(ok, f, f.node, what, exp, f"pair entries {pair}, other entries {sorted(rest)}")
